@@ -45,6 +45,9 @@ type c05Case struct {
 	PartFlags byte `json:"part_flags,omitempty"`
 	PartType  byte `json:"part_type,omitempty"`
 	PartN     int  `json:"part_n,omitempty"`
+	// Pending (server side): the handler registers a continuation when it handles the first packet, so a
+	// session is waiting while the later packets (of other sessions) and the terminal event arrive
+	Pending bool `json:"pending,omitempty"`
 	// Reset: where the stream ends it ends in a transport error (connection reset by peer), not in EOF
 	Reset bool `json:"reset,omitempty"`
 }
@@ -117,6 +120,17 @@ func genC05(t *rapid.T) c05Case {
 		c.Terminal = rapid.SampledFrom([]string{"eof-boundary", "eof-mid-header", "eof-mid-body", "oversize"}).Draw(t, "terminal_client")
 	}
 	c.Reset = rapid.IntRange(0, 3).Draw(t, "ends_in_reset") == 0
+	c.Pending = c.Side == "server" && rapid.IntRange(0, 2).Draw(t, "session_pending") == 0
+	if c.Pending && len(c.Pkts) > 0 {
+		// no later packet of the stream belongs to the waiting session (that would be a matter of
+		// sequence numbers, C08, not of framing)
+		c.Pkts[0].Session = 0x7ffe0001
+		for i := 1; i < len(c.Pkts); i++ {
+			if c.Pkts[i].Session == c.Pkts[0].Session {
+				c.Pkts[i].Session ^= 0x10
+			}
+		}
+	}
 	switch c.Terminal {
 	case "eof-mid-header":
 		c.Partial = rapid.IntRange(1, 11).Draw(t, "partial")
@@ -284,6 +298,16 @@ func runC05(t failer, c c05Case) {
 	_, chunks, clears := c.stream()
 	if c.Side == "server" {
 		rh := &recHandler{}
+		if c.Pending {
+			ev.Class("session-waiting-for-continuation")
+			first := true
+			rh.reply = func(resp tq.Response, req tq.Request) {
+				if first {
+					first = false
+					resp.Next(rh)
+				}
+			}
+		}
 		srv := startServer(nopLogger{}, staticSP{secret: nonNil(c.Secret), handler: rh}, tq.SetUseProxy(c.Proxy))
 		conn, err := srv.connect(nil)
 		if err != nil {
